@@ -9,6 +9,7 @@
 -/
 import Verif.Lemmas.WireRd
 import Verif.Lemmas.WireMsg
+import Verif.Lemmas.WireTotal
 namespace Verif.C12
 open Verif.Wire
 
@@ -134,6 +135,45 @@ theorem accepted_exact (b name : Bytes) (typ seq : Int) (l : Nat)
     (h : binReadMessageBegin b = .ok (name, typ, seq, l)) :
     b.take l = enc (.messageBegin name typ seq) ∧ (Val.messageBegin name typ seq).wf :=
   msg_accept_exact b name typ seq l h
+
+/-- stream counterpart of `accepted_exact`: whatever `BufferReader.ReadMessageBegin` accepts — on any
+    reader state with the representation invariant, under any source script — is exactly an encoded
+    header at the front of the remaining stream: those bytes are `enc` of the returned name, type and
+    seq (a value of the domain), exactly they have been consumed, and ReadLen grew by their number -/
+theorem stream_accepted_exact (r r' : Rd) (name : Bytes) (typ seq : Int) (hI : RInv r)
+    (h : brReadMessageBegin r = .ok ((name, typ, seq), r')) :
+    remaining r = enc (.messageBegin name typ seq) ++ remaining r' ∧
+    r'.readLen = r.readLen + (enc (.messageBegin name typ seq)).length ∧
+    (Val.messageBegin name typ seq).wf := by
+  obtain ⟨n, h1, h2, _, h4, _⟩ := brReadMessageBegin_refines r (name, typ, seq) r' hI h
+  cases hy : binReadMessageBegin (remaining r) with
+  | ok p =>
+    rw [hy] at h1; simp at h1
+    obtain ⟨⟨e1, e2, e3⟩, e4⟩ := h1
+    have := msg_accept_exact (remaining r) name typ seq n (by rw [hy, ← e1, ← e2, ← e3, ← e4])
+    rename_i hle _
+    refine ⟨by rw [← this.1]; exact h2, ?_, this.2⟩
+    rw [← this.1, h4, List.length_take]; omega
+  | err e => rw [hy] at h1; simp at h1
+  | panic s => rw [hy] at h1; simp at h1
+  | oob => rw [hy] at h1; simp at h1
+
+/-- truncated_err (stream reader): if all that is left — buffered bytes and source stream together —
+    is a strict prefix of an encoded header, ReadMessageBegin fails with an error, whatever the script
+    (it never accepts, never panics); by `Verif.C17.stream_err_wraps`/`stream_err_source` the error
+    is the source's own, wrapped -/
+theorem truncated_err_stream (name : Bytes) (typ seq : Int) (hn : name.length < 2^31) (ht : inI32 typ)
+    (hs : inI32 seq) (r : Rd) (hI : RInv r)
+    (hp : remaining r <+: enc (.messageBegin name typ seq)) (hne : remaining r ≠ enc (.messageBegin name typ seq)) :
+    ∃ e, brRead .msg r = .err e := by
+  rcases brRead_total .msg r hI with ⟨v, r', hok⟩ | herr
+  · exfalso
+    obtain ⟨n, h1, _⟩ := brRead_refines .msg r v r' hI hok
+    have ht' := truncated_err name typ seq hn ht hs (remaining r) hp hne
+    simp only [binRead] at h1
+    rw [ht'] at h1
+    simp [mapOk] at h1
+  · exact herr
 
 /-- marshal_unmarshal: for a non-empty method, any int32 type that is not EXCEPTION (mod 2^16) and
     any payload codec that writes what it advertises and reads back what it wrote, MarshalFastMsg
